@@ -24,6 +24,8 @@ from cattrs.errors import (  # noqa: E402
 
 assert cattrs.__file__.startswith(CATTRS_SRC), cattrs.__file__
 
+_MISSING = object()
+
 ALL_CFGS = [
     {"gen": g, "tuple": t, "detailed": d, "forbid": False}
     for g in (True, False)
@@ -120,9 +122,9 @@ class Session:
         return v, self.R.abs(v)
 
     # ---- implementation side
-    def impl_un(self, cfg, ty, x_abs, conv=None, x=None):
+    def impl_un(self, cfg, ty, x_abs, conv=None, x=_MISSING):
         conv = conv or self.conv(cfg)
-        if x is None:
+        if x is _MISSING:
             x = self.R.val(x_abs)
         try:
             u = conv.unstructure(x, unstructure_as=self.R.ty(ty))
@@ -133,9 +135,9 @@ class Session:
         except Unrepresentable:
             return ("unrep", u)
 
-    def impl_st(self, cfg, ty, payload_abs, conv=None, payload=None):
+    def impl_st(self, cfg, ty, payload_abs, conv=None, payload=_MISSING):
         conv = conv or self.conv(cfg)
-        p = self.R.val(payload_abs) if payload is None else payload
+        p = self.R.val(payload_abs) if payload is _MISSING else payload
         try:
             v = conv.structure(p, self.R.ty(ty))
         except Exception as e:  # noqa: BLE001
